@@ -18,7 +18,8 @@ EXPLANATION = (
     "the MaxTime test and reports; (R4, thorough) DefaultSolver<f64>: Send and stream targets must be Send+Sync "
     "(compile-fail witness); (R5) P is normalised to its upper triangle and cones are collapsed before any other "
     "use; (R6) every solve re-initialises: info.reset and default_start precede the loop, each arm writes all of "
-    "x,s,z,tau,kappa, and set_identity_scaling wholly rewrites every scaling field the KKT update reads, and every cone's unit_initialization wholly overwrites both of its vectors on every path; (R7) the units premises: every stage keeps the data in the coordinates the equilibration records; (R8) the LDL back ends agree on the value-update entry points (C08.R5 re-run); (R9) cone rectification of the equilibration (C10.R4 re-run).")
+    "x,s,z,tau,kappa, and set_identity_scaling wholly rewrites every scaling field the KKT update reads, and every cone's unit_initialization wholly overwrites both of its vectors on every path; (R7) the units premises: every stage keeps the data in the coordinates the equilibration records; (R8) the LDL back ends agree on the value-update entry points (C08.R5 re-run); (R9) cone rectification of the equilibration (C10.R4 re-run)."
+    " R6 also: a vector that unit_initialization copies into the other one is final when copied (no later write to the source).")
 ASSUMPTIONS = [
     'rustc MIR construction and trait resolution are correct',
     'IndexSet/IndexMap iterate in insertion order; Vec/slice iteration is ordered',
@@ -34,6 +35,27 @@ HASH_ALLOW = {
     ('SubTimersMap::total_time', 'values'): 'sum of integer Durations is order independent',
     ('CliqueGraphMergeStrategy::update_strategy', 'values_mut'): 'removes one key from every adjacency set: per-entry effect',
 }
+
+
+def _per_entry_only(f, m):
+    """the elements of a hash-map iteration are used only as the receiver of remove-like calls with a loop-invariant key:
+    a per-entry effect, independent of the iteration order"""
+    pat = re.compile(r'next\(into_iter\(%s\((?:[^()]|\([^()]*\))*\)\)\)@Some\.0(\.1)?' % m)
+    uses = 0
+    for val, ret, ev, tr in Walker(f, cut_loops=True).leaves():
+        for e in ev:
+            if e[0] == 'store' and (pat.search(str(e[1])) or pat.search(str(e[2]))):
+                return False
+            if e[0] != 'call' or not pat.search(str(e[2])):
+                continue
+            if e[1] in ('next', 'into_iter', m, 'deref', 'deref_mut'):
+                continue
+            a = split_args(str(e[2]))
+            if e[1] in ('shift_remove', 'swap_remove', 'remove') and len(a) == 2 and pat.fullmatch(a[0]) and 'next(into_iter(' not in a[1]:
+                uses += 1
+                continue
+            return False
+    return uses >= 1
 
 
 def global_state(rep, F, G, tag):
@@ -102,6 +124,9 @@ def hash_order(rep, F, G, tag):
                 fn_short = short(f.key)
                 if (fn_short, m) in HASH_ALLOW:
                     R.ok('allowed|%s|%s%s' % (fn_short, m, tag), HASH_ALLOW[(fn_short, m)])
+                    continue
+                if m in ('iter_mut', 'values_mut') and _per_entry_only(f, m):
+                    R.ok('per-entry|%s|%s%s' % (fn_short, m, tag), 'every use of the iteration element is a removal of a loop-invariant key from that element')
                     continue
                 if f.key not in reach and (f.root or '') not in reach:
                     R.ok('unreachable|%s|%s%s' % (fn_short, m, tag))
@@ -247,6 +272,18 @@ def unit_init_must_write(R, F, tag):
         for val, ret, ev, tr in Walker(f, cut_loops=True).leaves():
             if ret[0] == 'diverge':
                 continue
+            # a vector that is copied into the other one must be final when it is copied: a later write to (part of) the source
+            # leaves the copy with whatever the source held before - on a re-used solver, the previous solve's values
+            for i_, e in enumerate(ev):
+                if e[0] == 'call' and e[1] in ('copy_from', 'copy_from_slice', 'clone_from_slice'):
+                    a_ = split_args(e[2])
+                    if len(a_) == 2 and {a_[0], a_[1]} == {'arg2', 'arg3'}:
+                        src = a_[1]
+                        later = [str(x[2])[:60] for x in ev[i_ + 1:] if (x[0] == 'call' and x[1] in WHOLE + ('scalarop_from', 'scalarop', 'scale', 'translate', 'hadamard', 'axpby') and (split_args(x[2])[0] == src or split_args(x[2])[0].startswith(('index_mut(%s,' % src, 'index(%s,' % src))))
+                                 or (x[0] == 'store' and str(x[1]).startswith(src + '['))]
+                        R.check(not later, 'unit-init-copy-final|%s%s' % (K, tag),
+                                '%s::unit_initialization copies %s into %s and then still writes the source (%s): the copy keeps the stale part, so the start '
+                                'point of a re-used solver is not the documented one (s = z)' % (K, 's' if src == 'arg3' else 'z', 'z' if src == 'arg3' else 's', later), f.loc())
             for a in ('arg2', 'arg3'):
                 whole = any(e[0] == 'call' and e[1] in WHOLE and split_args(e[2])[0] == a for e in ev)
                 idx = set(e[1] for e in ev if e[0] == 'store' and re.fullmatch(re.escape(a) + r'\[\d+_usize\]', str(e[1])))
